@@ -197,6 +197,32 @@ func visitInstr(fr *frame, instr ssa.Instruction) continuation {
 		// no-op
 
 	case *ssa.UnOp:
+		if instr.Op == token.ARROW {
+			// channel receive: may park this goroutine (threads.go)
+			ch := fr.get(instr.X).(chan value)
+			var v value
+			var ok bool
+			if ch == nil {
+				fr.i.ex.await(func() bool { return false }, "receive from a nil channel")
+			}
+			fr.i.ex.await(func() bool {
+				select {
+				case v, ok = <-ch:
+					return true
+				default:
+					return false
+				}
+			}, "receive on a channel nobody sends to")
+			fr.i.ex.acquire(ch, 'c')
+			if !ok {
+				v = zero(instr.X.Type().Underlying().(*types.Chan).Elem())
+			}
+			if instr.CommaOk {
+				v = tuple{v, ok}
+			}
+			fr.env[instr] = v
+			break
+		}
 		fr.env[instr] = unop(instr, fr.get(instr.X))
 
 	case *ssa.BinOp:
@@ -255,11 +281,16 @@ func visitInstr(fr *frame, instr ssa.Instruction) continuation {
 		panic(targetPanic{fr.get(instr.X)})
 
 	case *ssa.Send:
-		select {
-		case fr.get(instr.Chan).(chan value) <- fr.get(instr.X):
-		default:
-			panic(blockedForever{"send on a channel nobody receives from"})
-		}
+		ch, v := fr.get(instr.Chan).(chan value), fr.get(instr.X)
+		fr.i.ex.release(ch, 'c')
+		fr.i.ex.await(func() bool {
+			select {
+			case ch <- v:
+				return true
+			default:
+				return false
+			}
+		}, "send on a channel nobody receives from")
 
 	case *ssa.Store:
 		store(mustDeref(instr.Addr.Type()), fr.get(instr.Addr).(*value), fr.get(instr.Val))
@@ -291,9 +322,8 @@ func visitInstr(fr *frame, instr ssa.Instruction) continuation {
 
 	case *ssa.Go:
 		fn, args := prepareCall(fr, &instr.Call)
-		// Goroutines are run inline to completion at the go statement
-		// (one schedule; see DESIGN §2.4).
-		runGoroutine(fr, instr, fn, args)
+		// The goroutine runs at once until it finishes or blocks (threads.go).
+		fr.i.ex.spawn(fr, instr.Pos(), fn, args)
 
 	case *ssa.MakeChan:
 		fr.env[instr] = make(chan value, asInt64(fr.get(instr.Size)))
@@ -418,21 +448,37 @@ func visitInstr(fr *frame, instr ssa.Instruction) continuation {
 				Send: send,
 			})
 		}
-		if instr.Blocking {
-			// probe readiness first: with inline goroutines a blocking select
-			// that is not ready now never becomes ready
-			probe := append([]reflect.SelectCase{{Dir: reflect.SelectDefault}}, cases...)
-			if c, _, _ := reflect.Select(probe); c == 0 {
-				panic(blockedForever{"select with no ready case"})
+		var chosen int
+		var recv reflect.Value
+		var recvOk bool
+		for _, state := range instr.States {
+			if state.Dir != types.RecvOnly {
+				fr.i.ex.release(fr.get(state.Chan), 'c')
 			}
 		}
-		chosen, recv, recvOk := reflect.Select(cases)
-		if !instr.Blocking {
+		if instr.Blocking {
+			// try the cases one by one in source order (deterministic where Go
+			// chooses at random among the ready ones); park until one is ready
+			fr.i.ex.await(func() bool {
+				for k := range cases {
+					c, rv, ok := reflect.Select([]reflect.SelectCase{{Dir: reflect.SelectDefault}, cases[k]})
+					if c == 1 {
+						chosen, recv, recvOk = k, rv, ok
+						return true
+					}
+				}
+				return false
+			}, "select with no ready case")
+		} else {
+			chosen, recv, recvOk = reflect.Select(cases)
 			chosen-- // default case should have index -1.
 		}
 		r := tuple{chosen, recvOk}
 		for i, st := range instr.States {
 			if st.Dir == types.RecvOnly {
+				if i == chosen {
+					fr.i.ex.acquire(fr.get(st.Chan), 'c')
+				}
 				var v value
 				if i == chosen && recvOk {
 					// No need to copy since send makes an unaliased copy.
@@ -621,7 +667,7 @@ func runFrame(fr *frame) {
 		fr.panicking = true
 		fr.panic = recover()
 		switch fr.panic.(type) {
-		case pathAbort, engineUnsupported, blockedForever:
+		case pathAbort, engineUnsupported, blockedForever, threadKilled:
 			panic(fr.panic)
 		case *runtime.TypeAssertionError:
 			panic(fr.panic)
@@ -885,24 +931,6 @@ func redirect(fn *ssa.Function) *ssa.Function {
 
 // blockedForever: the current (inline) goroutine can make no progress.
 type blockedForever struct{ why string }
-
-// runGoroutine runs a goroutine inline to completion at the go statement. A
-// goroutine that blocks (timer loops, workers waiting on a queue) is parked
-// forever: control returns to the spawner (stated in DESIGN §2.4).
-func runGoroutine(fr *frame, instr *ssa.Go, fn value, args []value) {
-	ex := fr.i.ex
-	defer func() {
-		if r := recover(); r != nil {
-			if _, ok := r.(blockedForever); ok {
-				ex.curFrame = fr
-				ex.parked++
-				return
-			}
-			panic(r)
-		}
-	}()
-	call(fr.i, nil, instr.Pos(), fn, args)
-}
 
 // branchAt decides a conditional jump; a per-instruction visit counter on
 // symbolic conditions implements the loop bound (unwinding assertion).
